@@ -421,3 +421,12 @@ Definition print_tstep_real (t : tstep) : str :=
   ++ (match t_dur t with Some d => "["%char :: print_dec_real d ++ ["]"%char] | None => [] end) ++ [nl].
 Definition print_plan_real (p : plan) : str :=
   match p with PSeq l => print_seq l | PTT l => concat (map print_tstep_real l) end.
+
+(* the rational denoted by the decimal (c, e), and the rational the reader gets back from print_dec_real q (q >= 0):
+   q rounded by the writer's division (exact on the fragment of print_dec) *)
+Definition dec_val (c : N) (e : Z) : Q :=
+  if (0 <=? e)%Z then Qred (Z.of_N (c * pow10N (Z.to_nat e)) # 1) else Qred (Z.of_N c # pow10 (Z.to_nat (- e))).
+Definition dec_rounded (q : Q) : Q :=
+  let n := Z.to_N (Z.abs (Qnum q)) in
+  let d := Npos (Qden q) in
+  if d =? 1 then Qred (Z.of_N n # 1) else let (c, e) := dec_div50 n d in dec_val c e.
